@@ -11,3 +11,8 @@ import XProofs.Properties.C18
 #print axioms Properties.C18.C18_recover_after_several_faults
 #print axioms Properties.C18.C18_recover_after_several_faults_expr
 #print axioms Properties.C18.C18_knob_recovery_fails
+#print axioms Properties.C18.C18_recover_expression_assignment
+#print axioms Properties.C18.C18_recover_expression_assignment_decided
+#print axioms Properties.C18.C18_recover_expression_after_several_faults
+#print axioms Properties.C18.C18_recover_expression_after_several_faults_by_value
+#print axioms Properties.C18.C18_expression_self_read_outside_scope
